@@ -196,6 +196,28 @@ def sweep_scenarios(golden):
                 s["faults"] = [f]
                 s["sweep"] = f"{'pair' if with_waiter else 'solo'}/{kind}/{variant}"
                 out.append(s)
+    # repeated failures of the same module, then a clean request (every pair of failure kinds)
+    for k1 in ("codegen-fail", "cc-fail", "ld-fail"):
+        for k2 in ("codegen-fail", "cc-fail", "ld-fail"):
+            s = {"seed": 11, "mode": "C15", "pre": [], "stretch": [],
+                 "procs": [{"name": 0, "arrive": 0.0, "requests": [{"req": name, "timeout": 2}]}],
+                 "late": [{"name": "late0", "req": name, "timeout": 2},
+                          {"name": "late1", "req": name, "timeout": 2},
+                          {"name": "late2", "req": name, "timeout": 1}],
+                 "faults": [{"kind": k1, "proc": 0}, {"kind": k2, "proc": "late0"}],
+                 "sweep": f"double-failure/{k1}/{k2}"}
+            out.append(s)
+    # a failing builder with two waiters and a newcomer during the failure handling
+    for k1 in ("codegen-fail", "cc-fail", "ld-fail"):
+        s = {"seed": 13, "mode": "C15", "pre": [],
+             "stretch": [{"proc": "holder", "after": "codegen:", "dur": 1.4}],
+             "procs": [{"name": 0, "arrive": 0.0, "requests": [{"req": name, "timeout": 3}]},
+                       {"name": 1, "arrive": 0.2, "requests": [{"req": name, "timeout": 3}]},
+                       {"name": 2, "arrive": 0.4, "requests": [{"req": name, "timeout": 3}]},
+                       {"name": 3, "arrive": 2.5, "requests": [{"req": name, "timeout": 3}]}],
+             "late": [{"name": "late0", "req": name, "timeout": 2}],
+             "faults": [{"kind": k1, "proc": 0}], "sweep": f"failure-with-waiters/{k1}"}
+        out.append(s)
     return out
 
 
